@@ -33,6 +33,25 @@
 //! mod 251 after the hex prefix): the huge-write family (one write of 1–3.5 MiB into a window of 2–4
 //! frames) keeps its lines, traces and replays short that way.
 //!
+//! (wave 9b) `sinkfail E` = the outbound direction of the transport fails (every sink operation reports an
+//! error; the task is polled); `new E … unstarted` + `start E` = a connection task that is created but polled
+//! for the first time only at `start` (calls, deliveries and faults before that meet a task that has not run).
+//! Monitors: C06 `abort-not-announced`, C15 / C08 `bind-unresolved-at-end`, C08 `open-unresolved-at-end` —
+//! see the block `==== wave 9b ====`.
+//!
+//! (wave 9a) Size dimensions. `writemany E h n k` = up to n one-octet writes back to back, cut at the first that
+//! is not accepted (answer `many <accepted> <done|pending|…>`; the driver iterates the model's `appWrite`);
+//! `wiredrop E` = a scripted peer has taken what E sent and keeps silent (the harness forgets E's wire; the
+//! case counts as one with a foreign peer from then on); `read E h 0` = a read into a buffer without room (its
+//! completion is written `eof` on both sides: the caller cannot tell, only the reads after it are judged);
+//! one in five fresh `write` stimuli of every family is made through `poll_write_vectored` with the same bytes
+//! cut into slices (`vec_mix`), a pending `writev` is retried with the same slices; datagram payloads may be
+//! `z` tokens. Monitors: C07 `credit-differs-from-advertised-window` (writes accepted before the first pending
+//! one, with no further Acknowledge delivered = the window in the peer's Connect / handshake Acknowledge; judged
+//! for scripted peers too), C04 `pending-with-credit` (a write pending although advertised window + acknowledged
+//! frames exceed the Push frames on the wire). Families: `large-vectored` (C04, C02), `zero-room-read` (C05,
+//! C02), `window-boundary` (C07), `dgram-boundary` (C11) — see the block `==== wave 9a ====`.
+//!
 //! `--focus Cxx` biases generation and selects which monitor failures / disagreements this run
 //! reports. Non-trivial case: at least one stream or datagram or bind exchange completed end to end
 //! (a frame sent by one endpoint was processed by the other).
@@ -71,8 +90,10 @@ struct HInfo {
     /// leading bytes of `read` already found equal to `written`
     verified: usize,
     pending_write: Option<Vec<u8>>,
-    /// the call that is pending: `write` or `wpush`
+    /// the call that is pending: `write`, `writev` or `wpush`
     pending_op: &'static str,
+    /// (wave 9a) the slices of a pending `writev`, as given: the retry passes the same slices again
+    pending_toks: Vec<String>,
 }
 
 #[derive(Default)]
@@ -193,6 +214,16 @@ struct World {
     /// queue with room) and not taken yet; `bind_unsure`: some delivery did not meet those conditions
     bind_due: [usize; 2],
     bind_unsure: [bool; 2],
+    /// (wave 9a) a share of the plain `write` stimuli is passed to `poll_write_vectored` instead, the same
+    /// bytes cut into slices (off while a recorded list is replayed: the list has them as they were made)
+    vec_mix: bool,
+    /// (wave 9a) C07 "initial send credit equals the window the other side advertised": per endpoint and flow
+    /// id, the window in the Connect delivered to it / in the Acknowledge that answered its own Connect, and
+    /// the writes with a payload accepted on that stream since — as long as no further Acknowledge of that
+    /// flow has been delivered. Kept for injected (scripted-peer) frames too.
+    init_win: [HashMap<u32, (u64, u64)>; 2],
+    /// (wave 9b) unstarted endpoints, the exact flow-ownership shadow, see `W9b`
+    w9b: W9b,
 }
 
 const NAMES: [&str; 2] = ["A", "B"];
@@ -239,7 +270,13 @@ fn parse_op(hexs: &str) -> Option<u8> {
 
 impl World {
     fn new(opts: [SimOpts; 2]) -> Self {
-        let mut sims = [Sim::new("A", opts[0]), Sim::new("B", opts[1])];
+        Self::new_with(opts, [false, false])
+    }
+
+    /// (wave 9b) `unstarted[e]`: the connection task of endpoint `e` is created but not polled until `start e`
+    fn new_with(opts: [SimOpts; 2], unstarted: [bool; 2]) -> Self {
+        let mk = |e: usize| if unstarted[e] { Sim::new_unstarted(NAMES[e], opts[e]) } else { Sim::new(NAMES[e], opts[e]) };
+        let mut sims = [mk(0), mk(1)];
         for sim in &mut sims { sim.compact = true; }
         let mut w = Self {
             sims,
@@ -312,7 +349,15 @@ impl World {
             hs_pending: [std::collections::HashSet::new(), std::collections::HashSet::new()],
             bind_due: [0; 2],
             bind_unsure: [false; 2],
+            vec_mix: true,
+            init_win: [HashMap::new(), HashMap::new()],
+            w9b: W9b { unstarted, created_unstarted: unstarted, ..W9b::default() },
         };
+        for e in 0..2 {
+            // (wave 9b) nothing delivered to an endpoint whose task has not run yet is dispatched: the shadows of
+            // its queues are not kept
+            if unstarted[e] { w.dg_q_ok[e] = false; w.bind_unsure[e] = true; }
+        }
         for v in &mut w.view {
             v.mux_alive = true;
         }
@@ -328,11 +373,17 @@ impl World {
     }
 
     fn header_lines(&self) -> Vec<String> {
-        vec![self.opts[0].line("A"), self.opts[1].line("B")]
+        // (wave 9b: `new E … unstarted` = the task of E is created but not polled until `start E`)
+        (0..2).map(|e| format!("{}{}", self.opts[e].line(NAMES[e]), if self.w9b.created_unstarted[e] { " unstarted" } else { "" })).collect()
     }
 
     /// Apply one stimulus to endpoint `e`; returns the implementation's answer.
     fn stim(&mut self, e: usize, toks: &[String]) -> String {
+        // (wave 9a) both entry points of the writer in every family: a share of the fresh plain writes is
+        // made through `poll_write_vectored`, the same bytes cut into slices (the model has one `write`)
+        if self.vec_mix && toks.len() == 3 && toks[0] == "write" {
+            if let Some(t2) = self.vectored_form(e, toks) { return self.stim(e, &t2); }
+        }
         let t: Vec<&str> = toks.iter().map(String::as_str).collect();
         if t.iter().any(|x| x.contains("z:")) { self.huge = true; }
         if t[0] == "wpush" { self.raw_push = true; }
@@ -345,8 +396,8 @@ impl World {
         // polled again with the same data — a spurious poll, which any executor may make — must still be
         // pending: had the poll become ready (credit arrived, the stream or the connection was closed),
         // the task owed the writer a wake-up. (Not judged after the application's own shutdown.)
-        let parked_before = matches!(t[0], "write" | "wpush") && t.len() >= 3 && t[1].parse::<usize>().ok().and_then(|h| self.view[e].handles.get(h).map(|hi| (h, hi))).is_some_and(|(h, hi)| {
-            hi.alive && !hi.shutdown && hi.pending_op == t[0] && hi.pending_write.is_some() && hi.pending_write == unhex(t[2]) && self.sims[e].wstate(h) == "parked"
+        let parked_before = matches!(t[0], "write" | "writev" | "wpush") && t.len() >= 3 && t[1].parse::<usize>().ok().and_then(|h| self.view[e].handles.get(h).map(|hi| (h, hi))).is_some_and(|(h, hi)| {
+            hi.alive && !hi.shutdown && hi.pending_op == t[0] && hi.pending_write.is_some() && self.sims[e].wstate(h) == "parked" && hi.pending_write == write_data(&t)
         });
         if let Some(wd) = WATCH.get() {
             if self.steps.is_empty() { wd.begin(self.header_lines()); }
@@ -369,6 +420,14 @@ impl World {
         }
         let src = self.next_src.take().unwrap_or_else(|| line.clone());
         self.steps.push(StepRec { line: line.clone(), src, out: out.clone() });
+        // (wave 9b) what held before the stimulus; a failing sink ends the connection before its events are read
+        let pre9b = self.w9b_pre(e, &t);
+        if t[0] == "wiredrop" {
+            // (wave 9a) a scripted peer has taken what this endpoint sent and keeps silent: the other endpoint
+            // of the case never sees those frames — from here on the case is one with a foreign peer
+            self.wire[e].clear();
+            self.injected = true;
+        }
         if t[0] == "deliver" && t.get(1) == Some(&"many") {
             // each frame is observed as a delivery of its own (bookkeeping of credit and of the in-use
             // shadows); the monitors that relate ONE delivered frame to the events of its step are off
@@ -402,6 +461,8 @@ impl World {
         } else {
             self.observe(e, &t, &out);
         }
+        // (wave 9b) flow ownership, `abort-not-announced`, `…-unresolved-at-end`
+        self.w9b_post(e, &t, &out, &pre9b);
         // C11, the sending side: a datagram `send_datagram` accepted goes onto the wire, in order, as long
         // as the connection is up (it is lost only at a full receiver or when the connection ends). The
         // outbound queue is FIFO: a later datagram on the wire while an earlier one never appeared means
@@ -413,7 +474,7 @@ impl World {
                 let Some((6, id, p)) = parse_frame(h) else { continue };
                 if p.len() < 3 || p.len() < 3 + p[0] as usize { continue; }
                 let hl = p[0] as usize;
-                let dg = format!("{} {} {} {}", id, hexd(&p[3..3 + hl]), u16::from_be_bytes([p[1], p[2]]), hexd(&p[3 + hl..]));
+                let dg = format!("{} {} {} {}", id, hexd(&p[3..3 + hl]), u16::from_be_bytes([p[1], p[2]]), hexz(&p[3 + hl..]));
                 match self.dg_owed[e].iter().position(|x| *x == dg) {
                     Some(0) => { self.dg_owed[e].pop_front(); }
                     Some(j) => {
@@ -465,10 +526,9 @@ impl World {
             for h in 0..self.view[e].handles.len() {
                 let hi = &self.view[e].handles[h];
                 if !hi.alive || hi.shutdown { continue; }
-                let Some(d) = hi.pending_write.clone() else { continue };
-                let op = hi.pending_op;
+                let Some(rt) = self.retry_toks(e, h) else { continue };
                 if self.sims[e].wstate(h) != "parked" { continue; }
-                self.stim(e, &[s(op), s(h), hexz(&d)]);
+                self.stim(e, &rt);
             }
         }
         out
@@ -553,7 +613,9 @@ impl World {
         }
         // while the sink holds frames back, the wire lags behind the flow table: the in-use shadow
         // is not maintained then (nor on the stimulus that releases the held frames)
-        let lagging = self.sink_blocked[e] || matches!(t[0], "sinkblock" | "sinkgrant" | "sinkunblock");
+        // (wave 9b: nor while the task of the endpoint has not run yet — nothing delivered is dispatched, nothing
+        // queued goes out — nor on the stimulus that is its first poll)
+        let lagging = self.sink_blocked[e] || matches!(t[0], "sinkblock" | "sinkgrant" | "sinkunblock") || self.w9b.unstarted[e] || t[0] == "start";
         if lagging {
             self.est[e].clear();
             self.pend[e].clear();
@@ -579,7 +641,7 @@ impl World {
                     if frame_valid(t[2]) && p.len() >= 3 && p.len() >= 3 + p[0] as usize {
                         let hl = p[0] as usize;
                         if self.dg_q[e].len() < self.opts[e].dgram_cap {
-                            self.dg_q[e].push_back(format!("{} {} {} {}", id, hexd(&p[3..3 + hl]), u16::from_be_bytes([p[1], p[2]]), hexd(&p[3 + hl..])));
+                            self.dg_q[e].push_back(format!("{} {} {} {}", id, hexd(&p[3..3 + hl]), u16::from_be_bytes([p[1], p[2]]), hexz(&p[3 + hl..])));
                         }
                     } else {
                         self.dg_q_ok[e] = false;
@@ -779,7 +841,8 @@ impl World {
                             self.fail("C05", "writer-parked-after-peer-abort", format!("a write on {}#{h} is left pending although the peer's Reset of that stream had been processed", NAMES[e]));
                         }
                         self.view[e].handles[h].pending_write = Some(data);
-                        self.view[e].handles[h].pending_op = if t[0] == "wpush" { "wpush" } else { "write" };
+                        self.view[e].handles[h].pending_op = match t[0] { "wpush" => "wpush", "writev" => "writev", _ => "write" };
+                        self.view[e].handles[h].pending_toks = if t[0] == "writev" { t[2..].iter().map(|x| (*x).to_string()).collect() } else { vec![] };
                     }
                     ["brokenpipe"] => {
                         self.view[e].handles[h].broken = true;
@@ -787,6 +850,55 @@ impl World {
                     }
                     _ => {}
                 }
+                // (wave 9a) the window monitors: what the writer was allowed against what the peer advertised
+                match r {
+                    ["wrote", n] if t[0] == "wpush" || *n != "0" => self.window_watch(e, h, 1, false, lagging, up_e),
+                    ["pending"] => self.window_watch(e, h, 0, true, lagging, up_e),
+                    _ => {}
+                }
+            }
+            // (wave 9a) a run of one-byte writes made back to back, cut at the first that is not accepted
+            ("writemany", ["many", cnt, last @ ..]) if last.first() != Some(&"badhandle") => {
+                let h: usize = t[1].parse().unwrap();
+                let k: usize = t[3].parse().unwrap_or(0);
+                let cnt: usize = cnt.parse().unwrap_or(0);
+                if both_up && !lagging && self.view[e].mux_alive && !self.in_batch {
+                    let pushes = evs.split("; ").filter(|ev| ev.strip_prefix("wire ").and_then(parse_op) == Some(4)).count();
+                    *self.mon.entry("write-credit-units/judged").or_insert(0) += 1;
+                    if pushes != cnt {
+                        let msg = format!("`{}` on {} answered `{res}` and put {pushes} Push frame(s) on the wire: one accepted write costs exactly one unit of the peer's window and sends one frame", t.join(" "), NAMES[e]);
+                        self.fail("C03", "write-credit-units", msg);
+                    }
+                }
+                if h < self.view[e].handles.len() {
+                    if cnt > 0 && clean && !self.reused && self.peer_reset.contains(&(e, h)) {
+                        let msg = format!("writes (`{}`) on {}#{h} were accepted ({cnt}) after the peer's Reset of that stream had been processed", t.join(" "), NAMES[e]);
+                        self.fail("C05", "write-after-peer-abort", msg.clone());
+                        self.fail("C06", "write-after-peer-abort", msg);
+                    }
+                    if cnt > 0 && self.view[e].handles[h].shutdown {
+                        self.fail("C05", "write-after-shutdown", "a write after local shutdown was accepted".into());
+                    }
+                    self.acc_push[e] += cnt as u64;
+                    self.view[e].handles[h].written.extend((0..cnt).map(|j| ((k + j) % 251) as u8));
+                    self.view[e].handles[h].pending_write = None;
+                    match last.first().copied() {
+                        Some("pending") => {
+                            self.view[e].handles[h].pending_write = Some(vec![((k + cnt) % 251) as u8]);
+                            self.view[e].handles[h].pending_op = "write";
+                            self.view[e].handles[h].pending_toks = vec![];
+                        }
+                        Some("brokenpipe") => { self.view[e].handles[h].broken = true; }
+                        _ => {}
+                    }
+                    self.window_watch(e, h, cnt as u64, last.first() == Some(&"pending"), lagging, up_e);
+                }
+            }
+            // (wave 9a) a read into a buffer without room (`read(&mut [])`, the readiness probe) hands out nothing
+            // whatever the state of the stream: at the `AsyncRead` level its completion looks like end-of-stream
+            // and says nothing — what it must not do is change what the reads after it return
+            ("read", _) if t.get(2) == Some(&"0") => {
+                *self.mon.entry("zero-room-read").or_insert(0) += 1;
             }
             ("read", r) => {
                 let h: usize = t[1].parse().unwrap();
@@ -985,7 +1097,7 @@ impl World {
                     // (an end by error — an undecodable frame, a failing transport — is acted on whether or not the sink
                     // takes anything: nothing is flushed then, the close is tried once and not waited for)
                     let error_end = invalid_frame || matches!(t[1], "err" | "err2");
-                    if !self.view[e].exited && self.view[e].terminated_by.is_none() && (!self.sink_blocked[e] || error_end) && not_parked && !self.in_batch {
+                    if !self.view[e].exited && self.view[e].terminated_by.is_none() && (!self.sink_blocked[e] || error_end) && not_parked && !self.in_batch && !self.w9b.unstarted[e] {
                         *self.mon.entry("exit-at-end/judged").or_insert(0) += 1;
                         if !evs.split("; ").any(|ev| ev.starts_with("exit ")) {
                             let msg = format!("endpoint {} was given `{}` (the connection has ended, its source yields nothing more; its receive loop was not waiting on a full queue, its sink accepts messages) and its task did not finish: every pending operation now waits for something the application may never do (events of the step: {})", NAMES[e], t.join(" "), if evs.is_empty() { "none" } else { evs });
@@ -1113,6 +1225,10 @@ impl World {
                         }
                         _ => {}
                     }
+                    // (wave 9a) C07: the window the other side advertised for the stream — the number in the
+                    // Connect that reaches e (unless e refuses it on the spot), or in the Acknowledge that
+                    // completes e's own request; any later Acknowledge of the flow ends the watch
+                    self.init_window_note(e, t[2], evs, up_e);
                 }
             }
             _ => {}
@@ -1641,7 +1757,7 @@ fn run_case(r: &mut Rng, focus: Focus, len: usize) -> World {
                         let data = gen_payload(r, tags[e].wrapping_add(h as u8 * 37), hi.written.len());
                         t.extend([s("write"), s(h), hexd(&data)]);
                     }
-                    3..=5 => { t.extend([s("read"), s(h), s(*r.pick(&[1u64, 3, 64, 1024]))]); }
+                    3..=5 => { t.extend([s("read"), s(h), s(*r.pick(&[0u64, 1, 3, 64, 1024]))]); }
                     6 if hi.pending_write.is_none() => { t.extend([s("shutdown"), s(h)]); }
                     _ => { t.extend([s("dropstream"), s(h)]); }
                 }
@@ -1696,8 +1812,9 @@ fn run_case(r: &mut Rng, focus: Focus, len: usize) -> World {
             match sel {
                 0..=3 => {
                     let hi = &w.view[e].handles[h];
-                    if let Some(d) = hi.pending_write.clone().filter(|_| hi.pending_op == "wpush") {
-                        w.stim(e, &[s("wpush"), s(h), hexz(&d)]);
+                    // (a pending frame-level or vectored call is made again as it was: same entry point, same slices)
+                    if let Some(rt) = w.retry_toks(e, h).filter(|_| matches!(hi.pending_op, "wpush" | "writev")) {
+                        w.stim(e, &rt);
                         continue;
                     }
                     // the frame-level writer (`poll_write_push`), mostly with an empty payload: what an older
@@ -1734,7 +1851,7 @@ fn run_case(r: &mut Rng, focus: Focus, len: usize) -> World {
                         w.stim(e, &[s("write"), s(h), hexd(&data)]);
                     }
                 }
-                4..=7 => { w.stim(e, &[s("read"), s(h), s(*r.pick(&[1u64, 2, 3, 8, 64, 1024]))]); }
+                4..=7 => { w.stim(e, &[s("read"), s(h), s(*r.pick(&[0u64, 1, 2, 3, 8, 64, 1024]))]); }
                 8 => { w.stim(e, &[s("shutdown"), s(h)]); }
                 _ => {
                     if r.chance(1, 3) { w.stim(e, &[s("dropstream"), s(h)]); } else { w.stim(e, &[s("wstate"), s(h)]); }
@@ -1859,6 +1976,15 @@ fn run_case(r: &mut Rng, focus: Focus, len: usize) -> World {
                 // under C11 half of the datagrams carry the flow id of a stream (the two id spaces overlap)
                 let stream_ids: Vec<u32> = if focus == Focus::C11 { let mut v: Vec<u32> = w.fid_port.keys().copied().collect(); v.sort_unstable(); v } else { vec![] };
                 let fid = if !stream_ids.is_empty() && r.chance(1, 2) { u64::from(*r.pick(&stream_ids)) } else if r.chance(1, 5) { 0 } else { r.range(1, 9) };
+                // (wave 9a) C11, "payload length 0..64 KiB": now and then a payload at the top of the range and a
+                // little beyond (nothing in PROTOCOL.md or `send_datagram` bounds it) — a pattern run, so that the
+                // lines stay short
+                if focus == Focus::C11 && r.chance(1, 40) {
+                    let dl = *r.pick(&DGRAM_TOP_LENGTHS);
+                    let k = r.below(251) as u8;
+                    w.stim(e, &[s("dgsend"), s(fid), hexd(&r.bytes(hl)), s(r.range(0, 65535)), hexz(&pvh::muxsim::pattern(dl, k))]);
+                    continue;
+                }
                 w.stim(e, &[s("dgsend"), s(fid), hexd(&r.bytes(hl)), s(r.range(0, 65535)), hexd(&r.bytes(dl))]);
             } else {
                 w.stim(e, &[s("dgrecv")]);
@@ -2124,7 +2250,7 @@ fn backlog_at_end_case(r: &mut Rng, focus: Focus) -> World {
     let arrive_first = r.below(3);
     if arrive_first == 0 { while w.deliver_next(e) {} } else if arrive_first == 1 { for _ in 0..r.range(0, n as u64) { w.deliver_next(e); } }
     // now and then the reader has already taken a little
-    if r.chance(1, 3) { w.stim(e, &[s("read"), s(0), s(*r.pick(&[1u64, 3, 64]))]); }
+    if r.chance(1, 3) { w.stim(e, &[s("read"), s(0), s(*r.pick(&[0u64, 1, 3, 64]))]); }
     match r.below(5) {
         0 | 1 if w.sims[e].pending_futures() == 0 => {
             // local drop, transport healthy: what the peer still had on the wire keeps arriving
@@ -2302,7 +2428,7 @@ fn frame_level_case(r: &mut Rng, focus: Focus) -> World {
                     w.stim(e, &[s(op), s(0), hexz(&d)]);
                 }
                 3 | 4 => { w.deliver_next(e); }
-                _ => { w.stim(e, &[s("read"), s(0), s(*r.pick(&[1u64, 8, 4096]))]); }
+                _ => { w.stim(e, &[s("read"), s(0), s(*r.pick(&[0u64, 1, 8, 4096]))]); }
             }
         }
     }
@@ -2636,7 +2762,7 @@ fn half_close_reply_case(r: &mut Rng, focus: Focus) -> World {
             w.stim(1, &[s("write"), s(0), hexd(&d)]);
             while w.deliver_next(0) {}
             while w.deliver_next(1) {}
-            if r.chance(1, 4) { w.stim(0, &[s("read"), s(0), s(*r.pick(&[1u64, 8, 4096]))]); while w.deliver_next(1) {} }
+            if r.chance(1, 4) { w.stim(0, &[s("read"), s(0), s(*r.pick(&[0u64, 1, 8, 4096]))]); while w.deliver_next(1) {} }
         }
         if r.chance(1, 2) { w.stim(1, &[s("shutdown"), s(0)]); }
     }
@@ -2697,6 +2823,10 @@ fn fair_completion(w: &mut World, rounds: usize) {
     let rounds = if w.huge { rounds.min(6) } else { rounds };
     w.quiesced = false;
     for e in 0..2 {
+        // (wave 9b) a task that was created is polled sooner or later
+        if w.w9b.unstarted[e] { w.stim(e, &[s("start")]); }
+    }
+    for e in 0..2 {
         if w.sink_blocked[e] {
             w.sink_blocked[e] = false;
             w.stim(e, &[s("sinkunblock")]);
@@ -2732,8 +2862,8 @@ fn fair_completion(w: &mut World, rounds: usize) {
             }
             for h in 0..w.view[e].handles.len() {
                 if !w.view[e].handles[h].alive { continue; }
-                if let Some(d) = w.view[e].handles[h].pending_write.clone() {
-                    let out = w.stim(e, &[s(w.view[e].handles[h].pending_op), s(h), hexz(&d)]);
+                if let Some(rt) = w.retry_toks(e, h) {
+                    let out = w.stim(e, &rt);
                     if !out.starts_with("pending") { progressed = true; }
                 }
                 if !w.view[e].handles[h].eof {
@@ -2967,13 +3097,1064 @@ fn final_checks(w: &mut World) {
     }
 }
 
+// ==== wave 9a ====================================================================================
+// Size dimensions of the quantifiers that no family reached: vectored writes of more than 1 MiB in
+// several slices (C04), reads into a buffer without room (C05), windows advertised by the peer at and
+// beyond the boundaries of the 32-bit field (C07), datagram payloads at the top of the 64 KiB range (C11).
+// Helpers of `World` used by the monitors and generators above, then the case families.
+
+/// Datagram payload lengths at the top of the documented range (0..64 KiB) and a little beyond it
+/// (neither PROTOCOL.md nor `send_datagram` bounds the payload).
+const DGRAM_TOP_LENGTHS: [usize; 8] = [65_507, 65_527, 65_528, 65_535, 65_536, 65_537, 66_000, 70_000];
+
+/// Windows a peer may advertise in a `Connect` / in the `Acknowledge` that answers one: the boundaries of
+/// the field and of every power of two an implementation might clamp to.
+const WINDOW_BOUNDS: [u32; 9] = [0, 1, 2, 65_535, 65_536, 65_537, 70_000, 1 << 31, u32::MAX];
+
+/// The bytes of a write-like stimulus (`write h d`, `writev h p…`, `wpush h d`).
+fn write_data(t: &[&str]) -> Option<Vec<u8>> {
+    let mut v = vec![];
+    for p in t.get(2..)? { v.extend(unhex(p)?); }
+    Some(v)
+}
+
+/// `IoSlice::advance_slices`: take `n` bytes off the front of a list of slices.
+fn advance_slices(rest: &mut Vec<Vec<u8>>, mut n: usize) {
+    while n > 0 && !rest.is_empty() {
+        if rest[0].len() <= n { n -= rest[0].len(); rest.remove(0); } else { rest[0].drain(..n); n = 0; }
+    }
+    while rest.first().is_some_and(Vec::is_empty) { rest.remove(0); }
+}
+
+impl World {
+    /// The pending write call of handle `h`, as it is made again: same entry point, same slices.
+    fn retry_toks(&self, e: usize, h: usize) -> Option<Vec<String>> {
+        let hi = self.view[e].handles.get(h)?;
+        let d = hi.pending_write.as_ref()?;
+        let mut t = vec![s(if hi.pending_op.is_empty() { "write" } else { hi.pending_op }), s(h)];
+        if hi.pending_op == "writev" && !hi.pending_toks.is_empty() { t.extend(hi.pending_toks.iter().cloned()); } else { t.push(hexz(d)); }
+        Some(t)
+    }
+
+    /// For one in five fresh `write h d` stimuli (decided by a hash of the position and the data: no draw
+    /// from the case's generator): the same bytes as a `writev` of two to four slices, empty ones included.
+    fn vectored_form(&self, e: usize, toks: &[String]) -> Option<Vec<String>> {
+        let h: usize = toks[1].parse().ok()?;
+        let hi = self.view[e].handles.get(h)?;
+        if !hi.alive || hi.pending_write.is_some() { return None; }
+        let tok = &toks[2];
+        let head: String = tok.chars().take(48).collect();
+        let x = fnv(format!("{}|{e}|{h}|{}|{head}", self.steps.len(), tok.len()).as_bytes());
+        if x % 5 != 0 { return None; }
+        let d = unhex(tok)?;
+        let mut cuts: Vec<usize> = (0..1 + (x >> 8) % 3).map(|i| ((x >> (16 + 8 * i)) % (d.len() as u64 + 1)) as usize).collect();
+        cuts.sort_unstable();
+        let mut t = vec![s("writev"), s(h)];
+        let mut from = 0;
+        for c in cuts.into_iter().chain([d.len()]) { t.push(hexz(&d[from..c])); from = c; }
+        Some(t)
+    }
+
+    /// C07 bookkeeping at the delivery of a frame to `e` (see `init_win`).
+    fn init_window_note(&mut self, e: usize, frame: &str, evs: &str, up_e: bool) {
+        if !frame_valid(frame) { return; }
+        let Some((op, id, p)) = parse_frame(frame) else { return };
+        let held_up = self.backlog[e][0] > self.opts[e].accept_cap || (self.opts[e].bind_cap > 0 && self.backlog[e][1] > self.opts[e].bind_cap);
+        match op {
+            0 if p.len() >= 6 => {
+                let refused = evs.split("; ").any(|ev| ev.strip_prefix("wire ").and_then(parse_head) == Some((2, id)));
+                if self.in_batch || !up_e || held_up || refused || id == 0 {
+                    self.init_win[e].remove(&id);
+                } else {
+                    self.init_win[e].insert(id, (u64::from(u32::from_be_bytes([p[0], p[1], p[2], p[3]])), 0));
+                }
+            }
+            1 if p.len() >= 4 => {
+                // the Acknowledge that completes a request of e: a stream comes into being in this very step
+                let handshake = !self.in_batch && up_e && evs.split("; ").any(|ev| ev.starts_with("opendone ") && ev.contains(" ok "));
+                if handshake {
+                    self.init_win[e].insert(id, (u64::from(u32::from_be_bytes([p[0], p[1], p[2], p[3]])), 0));
+                } else {
+                    self.init_win[e].remove(&id);
+                }
+            }
+            2 => { self.init_win[e].remove(&id); }
+            _ => {}
+        }
+    }
+
+    /// The window monitors, at a write-like call on handle `h` of `e` that was accepted with a payload
+    /// (`accepted` of them, for a run) and / or left pending.
+    ///
+    /// * C07 `credit-differs-from-advertised-window`: "each side's initial send credit equals the window the
+    ///   other side advertised". Until a further Acknowledge of the flow is delivered, the writes accepted on the
+    ///   stream number at most that window, and a write is left pending exactly when they number the window (for
+    ///   a window of 0: the first write is pending). Judged for scripted peers too (the numbers are on the wire).
+    /// * C04 `pending-with-credit`: between conforming endpoints, a write is left pending although the window
+    ///   the peer advertised plus everything it has acknowledged since exceeds the Push frames this endpoint has
+    ///   put on the wire — the writer waits for an Acknowledge the peer does not owe.
+    fn window_watch(&mut self, e: usize, h: usize, accepted: u64, pending: bool, lagging: bool, up_e: bool) {
+        let Some(id) = self.est[e].iter().find(|(_, hh)| **hh == h).map(|(id, _)| *id) else { return };
+        if !up_e || self.any_reuse || self.reused { self.init_win[e].remove(&id); return; }
+        if let Some(ent) = self.init_win[e].get_mut(&id) {
+            ent.1 += accepted;
+            let (win, acc) = *ent;
+            if pending || acc > win { *self.mon.entry("initial-credit/judged").or_insert(0) += 1; }
+            if acc > win || (pending && acc != win) {
+                let msg = if acc > win {
+                    format!("the peer of {} advertised a window of {win} for flow {id:08x} (in its Connect, or in the Acknowledge that answered {}'s Connect) and has acknowledged nothing since; {acc} writes with a payload have been accepted on stream {}#{h}: the initial send credit exceeds the advertised window", NAMES[e], NAMES[e], NAMES[e])
+                } else {
+                    format!("the peer of {} advertised a window of {win} for flow {id:08x} (in its Connect, or in the Acknowledge that answered {}'s Connect) and has acknowledged nothing since; a write on stream {}#{h} is left pending after only {acc} accepted writes: the initial send credit is smaller than the advertised window", NAMES[e], NAMES[e], NAMES[e])
+                };
+                self.init_win[e].remove(&id);
+                if !self.fails.iter().any(|f| f.0 == "C07" && f.1 == "credit-differs-from-advertised-window") {
+                    self.fails.push(("C07".into(), "credit-differs-from-advertised-window".into(), msg));
+                }
+            }
+        }
+        let held_up = self.backlog[e][0] >= self.opts[e].accept_cap || (self.opts[e].bind_cap > 0 && self.backlog[e][1] >= self.opts[e].bind_cap);
+        if pending && !self.injected && !lagging && !self.sink_blocked[e] && !self.in_batch && !held_up && self.view[e].mux_alive {
+            if let Some(c) = self.credit[e].get(&id).copied() {
+                *self.mon.entry("pending-with-credit/judged").or_insert(0) += 1;
+                if c > 0 {
+                    let msg = format!("a write on stream {}#{h} (flow {id:08x}) is left pending although the window its peer advertised plus the frames the peer has acknowledged since exceed the Push frames {} has put on the wire by {c}: units of the window were spent without a frame, the writer waits for an Acknowledge the peer does not owe", NAMES[e], NAMES[e]);
+                    self.fail("C04", "pending-with-credit", msg);
+                }
+            }
+        }
+    }
+}
+
+/// Set up two endpoints with scripted ids and one stream between them (either side opens); false when the
+/// stream did not come into being on both ends.
+fn one_stream(w: &mut World, r: &mut Rng) -> bool {
+    for e in 0..2 {
+        let mut t = vec![s("rng")];
+        t.extend((0..8).map(|_| s(r.range(1, 0xffff_ffff))));
+        w.stim(e, &t);
+        w.view[e].rng_left = 8;
+    }
+    let oe = r.below(2) as usize;
+    let req = w.next_req; w.next_req += 1;
+    w.stim(oe, &[s("open"), s(req), hexd(&r.bytes(2)), s(1000 + req)]);
+    w.deliver_next(1 - oe);
+    w.stim(1 - oe, &[s("accept")]);
+    w.deliver_next(oe);
+    !w.view[0].handles.is_empty() && !w.view[1].handles.is_empty()
+}
+
+/// C04 (C02): records handed to the stream as vectored writes of several slices — header, body in one to
+/// three pieces, empty slices in between — whose total is more than 1 MiB (also exactly 1 MiB, 1 MiB + 1, and
+/// small ones), into a window of 2–8 frames that the reader acknowledges late or early; a call left pending
+/// is made again with the same slices after the reader has read and its acknowledgement has travelled; a call
+/// accepted in part (`write_vectored` may be partial) is continued with the rest, as `write_all_vectored` does.
+/// Then a clean shutdown and the completion phase: every writer completes, every byte becomes readable.
+fn large_vectored_case(r: &mut Rng, focus: Focus) -> World {
+    let mut opts = [gen_opts(r, focus), gen_opts(r, focus)];
+    let we = r.below(2) as usize;
+    let re = 1 - we;
+    let wnd = *r.pick(&[2u32, 3, 4, 4, 6, 8]);
+    opts[re].rwnd = wnd;
+    opts[re].threshold = match r.below(3) { 0 => wnd, 1 => wnd.div_ceil(2), _ => r.range(1, u64::from(wnd)) as u32 };
+    // (the reader's threshold is capped by the window of the writer's side)
+    opts[we].rwnd = opts[we].rwnd.max(wnd);
+    let mut w = World::new(opts);
+    if !one_stream(&mut w, r) {
+        completion_phase(&mut w, r, focus);
+        return w;
+    }
+    let tag = r.below(251) as usize;
+    let drain = |w: &mut World| {
+        while w.deliver_next(re) {}
+        for _ in 0..16 { if !w.stim(re, &[s("read"), s(0), s(1u64 << 22)]).starts_with("data") { break; } }
+        while w.deliver_next(we) {}
+    };
+    let records = r.range(2, 4);
+    'rec: for _ in 0..records {
+        let off = w.view[we].handles[0].written.len();
+        let total = match r.below(6) {
+            0 => 1usize << 20,
+            1 => (1 << 20) + 1,
+            2 => r.range(200, 5000) as usize,
+            _ => r.range((1 << 20) + 2, 5 << 18) as usize,
+        };
+        let head = (*r.pick(&[0usize, 1, 16, 16, 300])).min(total);
+        let mut lens = vec![head];
+        let body = total - head;
+        let mut cuts: Vec<usize> = (0..r.below(3)).map(|_| r.range(0, body as u64) as usize).collect();
+        cuts.sort_unstable();
+        let mut from = 0;
+        for c in cuts.into_iter().chain([body]) { lens.push(c - from); from = c; }
+        let mut rest: Vec<Vec<u8>> = vec![];
+        let mut pos = 0;
+        for l in lens {
+            if r.chance(1, 3) { rest.push(vec![]); }
+            rest.push(pvh::muxsim::pattern(l, ((tag + off + pos) % 251) as u8));
+            pos += l;
+        }
+        let mut tries = 0;
+        loop {
+            let mut t = vec![s("writev"), s(0)];
+            t.extend(rest.iter().map(|p| hexz(p)));
+            let out = w.stim(we, &t);
+            let res = out.split(" | ").next().unwrap_or("").to_string();
+            if let Some(n) = res.strip_prefix("wrote ").and_then(|n| n.parse::<usize>().ok()) {
+                advance_slices(&mut rest, n);
+                if rest.is_empty() { break; }
+                if n == 0 { break 'rec; }
+                continue;
+            }
+            if res != "pending" { break 'rec; }
+            tries += 1;
+            if tries > 8 { break 'rec; }
+            // the reader reads (now, or only after a spurious retry), its acknowledgement travels
+            for _ in 0..r.range(0, 3) {
+                match r.below(4) {
+                    0 => { w.deliver_next(re); }
+                    1 => { w.stim(re, &[s("read"), s(0), s(*r.pick(&[65_536u64, 1 << 22]))]); }
+                    2 => { w.deliver_next(we); }
+                    _ => { if let Some(rt) = w.retry_toks(we, 0) { w.stim(we, &rt); } }
+                }
+            }
+            if w.view[we].handles[0].pending_write.is_none() { break 'rec; }
+            drain(&mut w);
+        }
+        match r.below(3) {
+            0 => { w.deliver_next(re); }
+            1 => { drain(&mut w); }
+            _ => {}
+        }
+    }
+    if w.view[we].handles[0].pending_write.is_none() && r.chance(2, 3) {
+        w.stim(we, &[s("shutdown"), s(0)]);
+    }
+    completion_phase(&mut w, r, focus);
+    w
+}
+
+/// C07, "each side's initial send credit equals the window the other side advertised", for the windows a
+/// conforming `Multiplexor` cannot be configured with or that take too long to fill one call at a time: a
+/// scripted peer advertises 0, 1, 2, 65535, 65536, 65537, 70000, 2^31, 2^32 − 1 — in a `Connect` (the endpoint
+/// accepts) or in the `Acknowledge` that answers the endpoint's own `Connect` (it requests). The application
+/// then writes one-octet frames back to back (`writemany`) without any further Acknowledge: exactly the
+/// advertised number is accepted before the first write is left pending (for the largest windows: more than
+/// 65536 are accepted); a later Acknowledge of m allows exactly m more.
+fn window_boundary_case(r: &mut Rng, focus: Focus, idx: u64) -> World {
+    let win = WINDOW_BOUNDS[(idx / 2) as usize % WINDOW_BOUNDS.len()];
+    let requester = idx % 2 == 1;
+    let mut w = World::new([gen_opts(r, focus), gen_opts(r, focus)]);
+    for e in 0..2 {
+        let mut t = vec![s("rng")];
+        t.extend((0..8).map(|_| s(r.range(1, 0xffff_ffff))));
+        w.stim(e, &t);
+        w.view[e].rng_left = 8;
+    }
+    let e = r.below(2) as usize;
+    let hl = r.range(0, 3) as usize;
+    let host = r.bytes(hl);
+    let id: Option<u32> = if requester {
+        let req = w.next_req; w.next_req += 1;
+        w.stim(e, &[s("open"), s(req), hexd(&host), s(1000 + req)]);
+        // the scripted peer takes the Connect and answers with its window
+        let id = w.wire[e].iter().rev().find_map(|m| parse_head(m).filter(|(op, _)| *op == 0).map(|x| x.1));
+        w.stim(e, &[s("wiredrop")]);
+        if let Some(id) = id {
+            let mut f = vec![0x71u8];
+            f.extend_from_slice(&id.to_be_bytes());
+            f.extend_from_slice(&win.to_be_bytes());
+            w.stim(e, &[s("deliver"), s("bin"), hexd(&f)]);
+        }
+        id
+    } else {
+        let id = r.range(1, 0xffff_fffe) as u32;
+        let mut f = vec![0x70u8];
+        f.extend_from_slice(&id.to_be_bytes());
+        f.extend_from_slice(&win.to_be_bytes());
+        f.extend_from_slice(&(r.range(1, 65535) as u16).to_be_bytes());
+        f.extend_from_slice(&host);
+        w.injected = true;
+        w.stim(e, &[s("deliver"), s("bin"), hexd(&f)]);
+        w.stim(e, &[s("accept")]);
+        // (the endpoint's Acknowledge goes to the scripted peer)
+        w.stim(e, &[s("wiredrop")]);
+        Some(id)
+    };
+    let (Some(id), false) = (id, w.view[e].handles.is_empty()) else {
+        fair_completion(&mut w, 10);
+        final_checks(&mut w);
+        return w;
+    };
+    let tag = r.below(251) as usize;
+    // a few ordinary calls first (they count), now and then a read that finds nothing
+    for _ in 0..r.below(3) {
+        let off = w.view[e].handles[0].written.len();
+        if w.view[e].handles[0].pending_write.is_some() { break; }
+        w.stim(e, &[s("write"), s(0), hexd(&[((tag + off) % 251) as u8])]);
+    }
+    if r.chance(1, 3) { w.stim(e, &[s("read"), s(0), s(*r.pick(&[0u64, 1, 64]))]); }
+    let n = if win <= 70_000 { u64::from(win) + r.range(1, 40) } else { 65_536 + r.range(1, 300) };
+    if let Some(rt) = w.retry_toks(e, 0) { w.stim(e, &rt); }
+    if w.view[e].handles[0].pending_write.is_none() {
+        let off = w.view[e].handles[0].written.len();
+        w.stim(e, &[s("writemany"), s(0), s(n), s((tag + off) % 251)]);
+        w.stim(e, &[s("wiredrop")]);
+    }
+    // the peer grants a little more: exactly that many further writes are accepted
+    if w.view[e].handles[0].pending_write.is_some() {
+        let m = r.range(1, 3) as u32;
+        let mut f = vec![0x71u8];
+        f.extend_from_slice(&id.to_be_bytes());
+        f.extend_from_slice(&m.to_be_bytes());
+        w.stim(e, &[s("deliver"), s("bin"), hexd(&f)]);
+        if let Some(rt) = w.retry_toks(e, 0) { w.stim(e, &rt); }
+        if w.view[e].handles[0].pending_write.is_none() {
+            let off = w.view[e].handles[0].written.len();
+            w.stim(e, &[s("writemany"), s(0), s(u64::from(m) + 1), s((tag + off) % 251)]);
+        }
+        w.stim(e, &[s("wiredrop")]);
+    }
+    fair_completion(&mut w, 10);
+    final_checks(&mut w);
+    w
+}
+
+/// C11, "payload length 0..64 KiB … a datagram is lost only when the receiver's datagram buffer is full or the
+/// connection ends": datagrams whose payload is at the top of the range or a little beyond (65507, 65527,
+/// 65528, 65535, 65536, 65537, 66000, 70000 octets; hosts of 0, 1, 255 octets; flow id 0, that of a stream, any),
+/// each followed by a small one, between two conforming endpoints — with or without a stream in use on the
+/// same connection; the receiving application then takes everything its buffer holds.
+fn dgram_boundary_case(r: &mut Rng, focus: Focus, idx: u64) -> World {
+    let mut opts = [gen_opts(r, focus), gen_opts(r, focus)];
+    let se = r.below(2) as usize;
+    let re = 1 - se;
+    if r.chance(2, 3) { opts[re].dgram_cap = opts[re].dgram_cap.max(r.range(2, 6) as usize); }
+    let mut w = World::new(opts);
+    let with_stream = r.chance(1, 2);
+    if with_stream {
+        one_stream(&mut w, r);
+    } else {
+        for e in 0..2 {
+            let mut t = vec![s("rng")];
+            t.extend((0..8).map(|_| s(r.range(1, 0xffff_ffff))));
+            w.stim(e, &t);
+            w.view[e].rng_left = 8;
+        }
+    }
+    let have_stream = with_stream && !w.view[0].handles.is_empty() && !w.view[1].handles.is_empty();
+    let stream_ids: Vec<u32> = { let mut v: Vec<u32> = w.fid_port.keys().copied().collect(); v.sort_unstable(); v };
+    let tag = r.next() as u8;
+    let write_some = |w: &mut World, r: &mut Rng| {
+        if have_stream && w.view[se].handles[0].pending_write.is_none() {
+            let d = gen_payload(r, tag, w.view[se].handles[0].written.len());
+            let d = if d.is_empty() { vec![tag] } else { d };
+            w.stim(se, &[s("write"), s(0), hexd(&d)]);
+        }
+    };
+    let take_all = |w: &mut World| {
+        for _ in 0..12 { if !w.stim(re, &[s("dgrecv")]).starts_with("dgram") { break; } }
+    };
+    let n = r.range(1, 3);
+    for j in 0..n {
+        if r.chance(1, 2) { write_some(&mut w, r); }
+        let dl = DGRAM_TOP_LENGTHS[((idx + j) as usize) % DGRAM_TOP_LENGTHS.len()];
+        let hl = *r.pick(&[0usize, 1, 255, 255, 7]);
+        let fid = match r.below(4) { 0 => 0, 1 if !stream_ids.is_empty() => u64::from(*r.pick(&stream_ids)), _ => r.range(1, 0xffff_ffff) };
+        let k = r.below(251) as u8;
+        w.stim(se, &[s("dgsend"), s(fid), hexd(&r.bytes(hl)), s(r.range(0, 65535)), hexz(&pvh::muxsim::pattern(dl, k))]);
+        if r.chance(1, 3) { while w.deliver_next(re) {} }
+        // the small one behind it
+        w.stim(se, &[s("dgsend"), s(r.range(1, 9)), hexd(&r.bytes(2)), s(53), hexd(&[0xd0 | j as u8, k])]);
+        if r.chance(1, 2) { write_some(&mut w, r); }
+        if r.chance(2, 3) {
+            while w.deliver_next(re) {}
+            take_all(&mut w);
+        }
+    }
+    while w.deliver_next(re) {}
+    take_all(&mut w);
+    if have_stream { w.stim(re, &[s("read"), s(0), s(4096)]); }
+    fair_completion(&mut w, 20);
+    take_all(&mut w);
+    final_checks(&mut w);
+    w
+}
+
+/// C05, "a read returns end-of-stream only after the peer has shut down or aborted that stream or the
+/// connection has ended": reads into a buffer without room (`read(&mut [])`, the readiness probe of HTTP
+/// stacks and proxies) among ordinary reads — in the middle of a partly consumed frame, on an idle stream
+/// (the call parks; the next frame makes it complete), with frames queued behind, after the peer's Finish —
+/// and then ordinary reads to the end: they return every byte, and end-of-stream only after the peer finished.
+fn zero_room_read_case(r: &mut Rng, focus: Focus) -> World {
+    let mut opts = [gen_opts(r, focus), gen_opts(r, focus)];
+    let we = r.below(2) as usize;
+    let re = 1 - we;
+    opts[re].rwnd = opts[re].rwnd.max(*r.pick(&[2u32, 4, 8]));
+    let mut w = World::new(opts);
+    if !one_stream(&mut w, r) {
+        completion_phase(&mut w, r, focus);
+        return w;
+    }
+    let tag = r.next() as u8;
+    // now and then the probe comes first: the stream is idle, the call is left pending
+    if r.chance(1, 2) { w.stim(re, &[s("read"), s(0), s(0)]); }
+    for _ in 0..r.range(3, 14) {
+        match r.below(8) {
+            0 | 1 => {
+                let hi = &w.view[we].handles[0];
+                if hi.shutdown { continue; }
+                match w.retry_toks(we, 0) {
+                    Some(rt) => { w.stim(we, &rt); }
+                    None => {
+                        let d = gen_payload(r, tag, hi.written.len());
+                        let d = if d.is_empty() { vec![tag] } else { d };
+                        w.stim(we, &[s("write"), s(0), hexd(&d)]);
+                    }
+                }
+            }
+            2 | 3 => { w.deliver_next(re); }
+            4 => { w.deliver_next(we); }
+            5 | 6 => { w.stim(re, &[s("read"), s(0), s(0)]); }
+            _ => { w.stim(re, &[s("read"), s(0), s(*r.pick(&[1u64, 2, 5, 64]))]); }
+        }
+    }
+    // the reader writes back: its own direction is not affected by anything above
+    if r.chance(1, 2) { w.stim(re, &[s("write"), s(0), hexd(&[tag, 0x5a])]); }
+    if r.chance(2, 3) && w.view[we].handles[0].pending_write.is_none() {
+        w.stim(we, &[s("shutdown"), s(0)]);
+        if r.chance(1, 2) { while w.deliver_next(re) {} w.stim(re, &[s("read"), s(0), s(0)]); }
+    }
+    completion_phase(&mut w, r, focus);
+    w
+}
+// ==== end of wave 9a =============================================================================
+
+// =================================================================================================
+// ==== wave 9b ====================================================================================
+// Three dimensions the generator did not reach, each with its monitor (all independent of the model):
+//
+// * the EARLIEST cut point (C08): application calls made before the connection task has been polled for
+//   the first time (`new E … unstarted`, stimulus `start E` = the first poll), with a transport that is
+//   already dead then — a failing sink (`sinkfail E`, new: every sink operation reports an error), a source
+//   that fails / ends / carries the peer's Close first. Family `dead_on_arrival_case`; monitors
+//   `open-unresolved-at-end`, `bind-unresolved-at-end`, `end-not-acted-on` at the very stimulus that makes
+//   the task meet the end (besides the end-of-case ones: `open-pending-after-end`, …).
+// * the bind accept queue FULL at the end of the connection, more `Bind` frames of the peer in the receive
+//   path right behind the end, own bind / stream requests pending (C15, C08): family
+//   `bind_backlog_at_end_case`; monitor `bind-unresolved-at-end` (C15, C08): the end is acted on at once,
+//   whatever the application takes from its queues afterwards — judged at the terminating stimulus itself,
+//   BEFORE the completion phase lets the application take bind requests (which would release a wind-down
+//   that waits for room in the queue).
+// * an abort after a `Reset` that closed nothing (C06): a `Connect` on an id that is IN USE by a live stream
+//   is refused with a Reset and the stream stays; a `Push` after the peer's `Finish` is answered with a Reset
+//   and the stream stays; then the application drops that stream. Family `refused_connect_then_drop_case`;
+//   monitor `abort-not-announced` over an exact shadow of "which handle's stream sits in the flow table
+//   under this id" (`W9b::live`), fed by the flow id each stream itself reports (its `Debug` output) — it does
+//   not need the port pairing of the two applications, so it also judges cases with injected frames.
+// =================================================================================================
+
+#[derive(Default)]
+struct W9b {
+    /// the task of the endpoint is created but has not been polled yet (`start` not given so far)
+    unstarted: [bool; 2],
+    /// … as the case was created (the header line says so)
+    created_unstarted: [bool; 2],
+    /// `sinkfail` was given to the endpoint
+    sink_failed: [bool; 2],
+    /// the flow id of the stream behind handle (e, h), as the stream reported it when the application got it
+    hfid: HashMap<(usize, usize), u32>,
+    /// flow id -> the handle whose stream CERTAINLY is the one the endpoint's flow table holds under that id:
+    /// set when the application gets a stream whose creation was observed (the Acknowledge that answered its
+    /// own request; the one Connect on that id that was taken in and not refused), removed on anything that
+    /// may take the slot away — a Reset of the peer delivered, a Reset of its own that is not a mere refusal,
+    /// the drop of ANY handle with that id (the notification carries the id only), the end of the connection,
+    /// a sink that holds frames back (Resets of its own are then not seen in time)
+    live: [HashMap<u32, usize>; 2],
+    /// flow id -> (Connects on it taken in and not refused whose streams the application has not accepted yet,
+    /// nothing has happened to that id since)
+    unacc: [HashMap<u32, (usize, bool)>; 2],
+    /// flow ids on which a Finish of the peer has been dispatched since the stream in `live` was created: a
+    /// Push on such an id is answered with a Reset that closes nothing
+    fin_in: [std::collections::HashSet<u32>; 2],
+    /// ids whose bookkeeping is uncertain for the rest of the case
+    poison: [std::collections::HashSet<u32>; 2],
+    /// handles on which `shutdown` was called, whatever it answered
+    shutdown_tried: std::collections::HashSet<(usize, usize)>,
+}
+
+/// What held at endpoint `e` before a stimulus.
+struct Pre9b {
+    /// started, task not finished, no terminating stimulus so far
+    up: bool,
+    was_unstarted: bool,
+    /// the sink holds frames back, or the stimulus moves it
+    blocked: bool,
+    term_none: bool,
+    backlog: [usize; 2],
+    /// (alive, shutdown, broken) per handle
+    handles: Vec<(bool, bool, bool)>,
+}
+
+fn rst_event(id: u32) -> String {
+    format!("wire {}", hexd(&[&[0x72u8][..], &id.to_be_bytes()[..]].concat()))
+}
+
+impl World {
+    fn w9b_pre(&mut self, e: usize, t: &[&str]) -> Pre9b {
+        let v = &self.view[e];
+        let pre = Pre9b {
+            up: !v.exited && v.terminated_by.is_none() && !self.w9b.unstarted[e],
+            was_unstarted: self.w9b.unstarted[e],
+            blocked: self.sink_blocked[e] || matches!(t[0], "sinkblock" | "sinkgrant" | "sinkunblock"),
+            term_none: v.terminated_by.is_none(),
+            backlog: self.backlog[e],
+            handles: v.handles.iter().map(|h| (h.alive, h.shutdown, h.broken)).collect(),
+        };
+        for (k, x) in t.iter().enumerate() {
+            if *x == "shutdown" && (k == 0 || t[0] == "batch") {
+                if let Some(h) = t.get(k + 1).and_then(|h| h.parse::<usize>().ok()) { self.w9b.shutdown_tried.insert((e, h)); }
+            }
+        }
+        if t[0] == "sinkfail" {
+            // the connection ends here (observed before the events of the step are: the task's exit is expected)
+            self.w9b.sink_failed[e] = true;
+            if self.view[e].terminated_by.is_none() { self.view[e].terminated_by = Some("sinkfail".into()); }
+            self.faulted = true;
+            self.ep_faulted[e] = true;
+            self.dg_q_ok[e] = false;
+            self.est[e].clear();
+            self.pend[e].clear();
+            self.inc[e].clear();
+            self.tabled[e].clear();
+            self.abandoned[e].clear();
+            self.bind_wire[e].clear();
+        }
+        pre
+    }
+
+    #[allow(clippy::too_many_lines)]
+    fn w9b_post(&mut self, e: usize, t: &[&str], out: &str, pre: &Pre9b) {
+        if matches!(t[0], "rng" | "wstate" | "flowcount") { return; }
+        let (res, evs) = out.split_once(" | ").unwrap_or((out, ""));
+        let evl: Vec<&str> = evs.split("; ").filter(|x| !x.is_empty()).collect();
+        let single_bin = t[0] == "deliver" && t.get(1) == Some(&"bin") && t.len() == 3;
+        let frame: Option<(u8, u32)> = if single_bin && frame_valid(t[2]) { parse_head(t[2]) } else { None };
+        // the task ran after this stimulus, nothing it sent is held back, its receive loop was certainly not
+        // waiting for room in a queue (so a frame delivered now was dispatched now)
+        let held_up = pre.backlog[0] >= self.opts[e].accept_cap || (self.opts[e].bind_cap > 0 && pre.backlog[1] >= self.opts[e].bind_cap);
+        let sure_step = pre.up && !pre.blocked && self.view[e].mux_alive;
+        if !sure_step {
+            self.w9b.live[e].clear();
+            self.w9b.fin_in[e].clear();
+            for u in self.w9b.unacc[e].values_mut() { u.1 = false; }
+        }
+        let forget = |w9b: &mut W9b, id: u32| {
+            w9b.live[e].remove(&id);
+            w9b.fin_in[e].remove(&id);
+            if let Some(u) = w9b.unacc[e].get_mut(&id) { u.1 = false; }
+        };
+
+        // 1. the handles the application lets go of in this stimulus
+        let dropped: Vec<usize> = if matches!(t[0], "dropstream" | "dropmany") && res == "unit" {
+            t[1..].iter().filter_map(|x| x.parse::<usize>().ok()).filter(|h| pre.handles.get(*h).is_some_and(|x| x.0)).collect()
+        } else { vec![] };
+        let dropped_fids: Vec<Option<u32>> = dropped.iter().map(|h| self.w9b.hfid.get(&(e, *h)).copied()).collect();
+
+        // 2. Resets this endpoint put on the wire: a refusal of a Connect on an id in use and the answer to a Push
+        // behind the peer's Finish close nothing; the announcement of a drop is dealt with below; any other
+        // may have taken the slot away
+        for ev in &evl {
+            let Some((2, id)) = ev.strip_prefix("wire ").and_then(parse_head) else { continue };
+            let refusal = frame == Some((0, id)) && sure_step && !held_up;
+            let behind_finish = frame == Some((4, id)) && sure_step && !held_up && self.w9b.fin_in[e].contains(&id);
+            let announced = dropped_fids.contains(&Some(id));
+            if !refusal && !behind_finish && !announced { forget(&mut self.w9b, id); }
+        }
+
+        // 3. what was delivered
+        if let Some((op, id)) = frame {
+            match op {
+                0 if id != 0 => {
+                    if !sure_step || held_up {
+                        self.w9b.poison[e].insert(id);
+                    } else if !evl.contains(&rst_event(id).as_str()) {
+                        // taken in: the table had no such id (whatever the shadow said is over), now it has this stream
+                        forget(&mut self.w9b, id);
+                        let u = self.w9b.unacc[e].entry(id).or_insert((0, true));
+                        u.0 += 1;
+                    }
+                }
+                2 => forget(&mut self.w9b, id),
+                3 if sure_step && !held_up => { self.w9b.fin_in[e].insert(id); }
+                _ => {}
+            }
+        } else if matches!(t[0], "deliver" | "batch") {
+            // several items at once (or an undecodable one): ids of Connect and Reset frames among them are not followed
+            for x in t {
+                if let Some((op, id)) = parse_head(x) {
+                    if op == 0 || op == 2 { self.w9b.poison[e].insert(id); forget(&mut self.w9b, id); }
+                }
+            }
+        }
+
+        // 4. streams the application got
+        let calls: Vec<(&[&str], &str)> = if t[0] == "batch" {
+            t[1..].split(|x| *x == ";").zip(res.split(" , ")).collect()
+        } else { vec![(t, res)] };
+        for (call, r) in calls {
+            if call.first() == Some(&"dropstream") && t[0] == "batch" {
+                if let Some(fid) = call.get(1).and_then(|h| h.parse::<usize>().ok()).and_then(|h| self.w9b.hfid.get(&(e, h)).copied()) { forget(&mut self.w9b, fid); } else { self.w9b.live[e].clear(); }
+            }
+            if call.first() != Some(&"accept") { continue; }
+            let rt: Vec<&str> = r.split(' ').collect();
+            let ["stream", h, ..] = rt.as_slice() else { continue };
+            let Ok(h) = h.parse::<usize>() else { continue };
+            let Some(fid) = self.sims[e].flow_id(h) else { self.w9b.live[e].clear(); continue };
+            self.w9b.hfid.insert((e, h), fid);
+            let sure = t[0] != "batch" && pre.up && self.w9b.unacc[e].get(&fid) == Some(&(1, true)) && !self.w9b.poison[e].contains(&fid);
+            if let Some(u) = self.w9b.unacc[e].get_mut(&fid) {
+                u.0 = u.0.saturating_sub(1);
+                if u.0 == 0 { self.w9b.unacc[e].remove(&fid); }
+            }
+            if sure && sure_step { self.w9b.live[e].insert(fid, h); }
+        }
+        for ev in &evl {
+            let et: Vec<&str> = ev.split(' ').collect();
+            let ["opendone", _, "ok", h] = et.as_slice() else { continue };
+            let Ok(h) = h.parse::<usize>() else { continue };
+            let Some(fid) = self.sims[e].flow_id(h) else { self.w9b.live[e].clear(); continue };
+            self.w9b.hfid.insert((e, h), fid);
+            // (the Acknowledge that answered the request was dispatched in this very step)
+            if frame == Some((1, fid)) && sure_step && !held_up && !self.w9b.poison[e].contains(&fid) {
+                self.w9b.fin_in[e].remove(&fid);
+                self.w9b.live[e].insert(fid, h);
+            }
+        }
+
+        // 5. C06 `abort-not-announced`: the application drops a stream it has not shut down; that stream is the
+        // one in the endpoint's flow table; the connection is up and the sink takes frames: when the endpoint is
+        // quiescent again its Reset of that flow is on the wire (task.rs `close_flow_local`: not `finish_sent`)
+        for (k, h) in dropped.iter().enumerate() {
+            let Some(fid) = dropped_fids[k] else { self.w9b.live[e].clear(); continue };
+            let (_, shutdown, broken) = pre.handles[*h];
+            if self.w9b.live[e].get(&fid) == Some(h) && sure_step && !shutdown && !broken && !self.w9b.shutdown_tried.contains(&(e, *h)) {
+                *self.mon.entry("abort-announced/judged").or_insert(0) += 1;
+                if !evl.contains(&rst_event(fid).as_str()) {
+                    let msg = format!("the application of {} dropped stream #{h} (flow {fid:08x}) without shutting it down; that stream was established and nothing had closed it — no Reset of the peer, no Reset of {}'s own other than refusals of a Connect on the id in use / answers to a Push behind the peer's Finish, no other handle of that id dropped — the connection is up and the sink takes frames, yet endpoint {} is quiescent and has put no Reset {fid:08x} on the wire: the peer is never told of the abort (events of the step: {})",
+                        NAMES[e], NAMES[e], NAMES[e], if evs.is_empty() { "none" } else { evs });
+                    // (recorded without the reuse suffix: the stream that owns the id is the current one)
+                    if !self.fails.iter().any(|f| f.0 == "C06" && f.1 == "abort-not-announced") {
+                        self.fails.push(("C06".into(), "abort-not-announced".into(), msg));
+                    }
+                }
+            }
+            forget(&mut self.w9b, fid);
+        }
+
+        // 6. C15 / C08 `…-unresolved-at-end`: the connection has ended and the task has met the end in this very
+        // step — the source yielded an error / its end / the peer's Close while the receive loop was certainly
+        // not waiting for room in a queue; the sink failed (the send loop meets that whatever the receive loop
+        // does); the task's first poll found the transport already dead. Nothing in the wind-down waits for
+        // the application: every stream and bind request of this endpoint is resolved and the task has
+        // finished when the endpoint is quiescent again, whatever the application takes from its queues later.
+        let term = self.view[e].terminated_by.clone();
+        let ended = term.as_deref().is_some_and(|x| x != "dropmux");
+        let many = t[0] == "deliver" && t.get(1) == Some(&"many");
+        let (mut c0, mut c5) = (pre.backlog[0], pre.backlog[1]);
+        if many {
+            for x in &t[2..] {
+                if !frame_valid(x) { break; }
+                match parse_op(x) { Some(0) => c0 += 1, Some(5) => c5 += 1, _ => {} }
+            }
+        }
+        let not_parked = c0 <= self.opts[e].accept_cap && (self.opts[e].bind_cap == 0 || c5 <= self.opts[e].bind_cap);
+        let error_end = matches!(term.as_deref(), Some("err" | "err2" | "bad"));
+        let kind: Option<&str> = if t[0] == "sinkfail" && pre.up {
+            Some("its sink failed")
+        } else if t[0] == "start" && pre.was_unstarted && ended && (self.w9b.sink_failed[e] || (not_parked && (!pre.blocked || error_end))) {
+            Some("its task was polled for the first time, the transport being dead already")
+        } else if t[0] == "deliver" && pre.up && pre.term_none && ended && not_parked && (!pre.blocked || error_end) {
+            Some("its source yielded the end of the connection")
+        } else { None };
+        if let Some(kind) = kind {
+            *self.mon.entry("resolved-at-end/judged").or_insert(0) += 1;
+            let mut binds: Vec<u64> = self.view[e].binds.iter().filter(|(r, c)| **c == 0 && !self.sims[e].req_held(**r)).map(|(r, _)| *r).collect();
+            binds.sort_unstable();
+            let mut opens: Vec<u64> = self.view[e].opens.keys().copied().filter(|r| !self.sims[e].req_held(*r)).collect();
+            opens.sort_unstable();
+            let line = t.join(" ");
+            let line: String = line.chars().take(80).collect();
+            let tail = format!("endpoint {} is quiescent after `{line}` ({kind}; nothing in the wind-down may wait for the application) — events of the step: {}", NAMES[e], if evs.is_empty() { "none" } else { evs });
+            if !binds.is_empty() {
+                *self.mon.entry("resolved-at-end/with-bind-pending").or_insert(0) += 1;
+                let msg = format!("bind request(s) {binds:?} of {} are still unresolved although the connection has ended: a bind request resolves exactly once, with `false` or Closed if the connection ended first; {tail}", NAMES[e]);
+                for prop in ["C15", "C08"] {
+                    if !self.fails.iter().any(|f| f.0 == prop && f.1 == "bind-unresolved-at-end") {
+                        self.fails.push((prop.into(), "bind-unresolved-at-end".into(), msg.clone()));
+                    }
+                }
+            }
+            if !opens.is_empty() {
+                let msg = format!("stream request(s) {opens:?} of {} are still pending although the connection has ended: they complete with Closed; {tail}", NAMES[e]);
+                if !self.fails.iter().any(|f| f.0 == "C08" && f.1 == "open-unresolved-at-end") {
+                    self.fails.push(("C08".into(), "open-unresolved-at-end".into(), msg));
+                }
+            }
+            if t[0] != "deliver" && !evl.iter().any(|ev| ev.starts_with("exit ")) {
+                let msg = format!("the connection task of {} has not finished although the connection has ended; {tail}", NAMES[e]);
+                if !self.fails.iter().any(|f| f.0 == "C08" && f.1 == "end-not-acted-on") {
+                    self.fails.push(("C08".into(), "end-not-acted-on".into(), msg));
+                }
+            }
+        }
+        if t[0] == "start" { self.w9b.unstarted[e] = false; }
+    }
+}
+
+fn w9b_scripts(w: &mut World, r: &mut Rng, n: usize) -> [Vec<u32>; 2] {
+    let mut all = [vec![], vec![]];
+    for k in 0..2 {
+        let ids: Vec<u32> = (0..n).map(|_| r.range(1, 0xffff_ffff) as u32).collect();
+        let mut t = vec![s("rng")];
+        t.extend(ids.iter().map(s));
+        w.stim(k, &t);
+        w.view[k].rng_left = n;
+        all[k] = ids;
+    }
+    all
+}
+
+/// C08 (also C15, C07): application calls made before the connection task is polled for the first time, and a
+/// transport that is already dead — or closed by the peer, or not ready — at that first poll.
+fn dead_on_arrival_case(r: &mut Rng, focus: Focus) -> World {
+    let mut opts = [gen_opts(r, focus), gen_opts(r, focus)];
+    let e = r.below(2) as usize;
+    let pe = 1 - e;
+    if r.chance(2, 3) { opts[e].bind_cap = r.range(1, 3) as usize; }
+    if r.chance(1, 2) { opts[pe].bind_cap = r.range(1, 2) as usize; }
+    let mut un = [false; 2];
+    un[e] = true;
+    // now and then neither task has run yet
+    if r.chance(1, 6) { un[pe] = true; }
+    let mut w = World::new_with(opts, un);
+    w9b_scripts(&mut w, r, 12);
+    let call = |w: &mut World, r: &mut Rng, k: usize, which: u64| {
+        match which {
+            0 | 1 => {
+                let req = w.next_req; w.next_req += 1; w.view[k].rng_left = w.view[k].rng_left.saturating_sub(2);
+                let hl = r.range(0, 5) as usize;
+                w.stim(k, &[s("open"), s(req), hexd(&r.bytes(hl)), s(1000 + req)]);
+            }
+            2 | 3 => {
+                let req = w.next_req; w.next_req += 1; w.view[k].rng_left = w.view[k].rng_left.saturating_sub(2);
+                let hl = r.range(0, 5) as usize;
+                w.stim(k, &[s("bindreq"), s(req), s(if r.chance(1, 2) { 1 } else { 3 }), hexd(&r.bytes(hl)), s(2000 + req)]);
+            }
+            4 => { w.stim(k, &[s("accept")]); }
+            5 => { w.stim(k, &[s("dgrecv")]); }
+            6 => { w.stim(k, &[s("bindnext")]); }
+            _ => { w.stim(k, &[s("dgsend"), s(r.range(0, 9)), hexd(&r.bytes(2)), s(53), hexd(&r.bytes(3))]); }
+        }
+    };
+    // what the peer has sent by the time the task first runs
+    if r.chance(1, 2) {
+        for _ in 0..r.range(1, 3) { let k = r.below(8); call(&mut w, r, pe, if k >= 4 { 7 } else { k }); }
+        if !un[pe] && r.chance(2, 3) { while w.deliver_next(e) {} }
+    }
+    let fault_first = r.chance(1, 3);
+    let fault = r.below(9);
+    let give_fault = |w: &mut World| {
+        match fault {
+            0 => {}
+            1 | 2 => { w.stim(e, &[s("sinkfail")]); }
+            3 => { w.stim(e, &[s("sinkfail")]); w.stim(e, &[s("deliver"), s("err")]); }
+            4 => { w.stim(e, &[s("deliver"), s("err")]); }
+            5 => { w.stim(e, &[s("deliver"), s("eof")]); }
+            6 => { w.stim(e, &[s("deliver"), s("close")]); }
+            7 => { w.stim(e, &[s("deliver"), s("eof")]); w.stim(e, &[s("sinkfail")]); }
+            _ => { w.sink_blocked[e] = true; w.stim(e, &[s("sinkblock")]); }
+        }
+    };
+    if fault_first { give_fault(&mut w); }
+    // the calls in flight when the task first runs: mostly with a stream or a bind request among them
+    let n = r.range(1, 5);
+    let must = r.below(4);
+    for k in 0..n {
+        let which = if k == 0 && r.chance(3, 4) { must } else { r.below(8) };
+        call(&mut w, r, e, which);
+    }
+    if !fault_first { give_fault(&mut w); }
+    if r.chance(1, 4) { let k = r.below(4); call(&mut w, r, e, k); }
+    w.stim(e, &[s("start")]);
+    if un[pe] { w.stim(pe, &[s("start")]); }
+    // calls made after the task has met the end
+    for _ in 0..r.range(0, 3) { let k = r.below(8); call(&mut w, r, e, k); }
+    if matches!(fault, 0 | 8) && r.chance(2, 3) && !w.view[e].exited {
+        // the transport was healthy (or merely not ready) at the first poll: things travel for a while, then the
+        // outbound direction fails at a later point, with whatever is pending by then
+        if w.sink_blocked[e] { w.sink_blocked[e] = false; w.stim(e, &[s("sinkunblock")]); }
+        for _ in 0..r.range(0, 4) {
+            match r.below(4) {
+                0 => { w.deliver_next(pe); }
+                1 => { w.deliver_next(e); }
+                2 => { let k = r.below(8); call(&mut w, r, pe, k); }
+                _ => { let k = r.below(8); call(&mut w, r, e, k); }
+            }
+        }
+        w.stim(e, &[s("sinkfail")]);
+    }
+    fair_completion(&mut w, 20);
+    final_checks(&mut w);
+    w
+}
+
+/// C15 / C08: the connection ends while the bind accept queue of the endpoint is FULL (its application has not
+/// called `next_bind_request`), more `Bind` frames of the peer are in the receive path right behind the end
+/// (in the same batch as the Close / the undecodable frame, or waiting behind a receive loop that is parked on
+/// the full queue when the sink fails), and the endpoint has bind requests (and a stream request) of its own
+/// pending. Queue capacities 1–4.
+fn bind_backlog_at_end_case(r: &mut Rng, focus: Focus) -> World {
+    let mut opts = [gen_opts(r, focus), gen_opts(r, focus)];
+    let e = r.below(2) as usize;
+    let pe = 1 - e;
+    let cap = *r.pick(&[1usize, 1, 2, 2, 3, 4]);
+    opts[e].bind_cap = cap;
+    if r.chance(4, 5) { opts[pe].bind_cap = r.range(1, 3) as usize; }
+    let mut w = World::new(opts);
+    w9b_scripts(&mut w, r, 24);
+    // the endpoint's own requests: nobody answers them before the end
+    for _ in 0..r.range(1, 2) {
+        let req = w.next_req; w.next_req += 1;
+        let hl = r.range(0, 5) as usize;
+        w.stim(e, &[s("bindreq"), s(req), s(if r.chance(1, 2) { 1 } else { 3 }), hexd(&r.bytes(hl)), s(2000 + req)]);
+    }
+    if r.chance(1, 2) {
+        let req = w.next_req; w.next_req += 1;
+        w.stim(e, &[s("open"), s(req), hexd(&r.bytes(2)), s(1000 + req)]);
+    }
+    if r.chance(2, 3) { while w.deliver_next(pe) {} }
+    // the application of e has taken (and perhaps answered) a request or two earlier on
+    let taken = if r.chance(1, 4) { r.range(1, 2) as usize } else { 0 };
+    let behind = r.range(1, 3) as usize;
+    let parked = r.chance(1, 3);
+    let total = taken + cap + behind + usize::from(parked);
+    for _ in 0..total {
+        let req = w.next_req; w.next_req += 1;
+        let hl = r.range(0, 4) as usize;
+        w.stim(pe, &[s("bindreq"), s(req), s(if r.chance(1, 2) { 1 } else { 3 }), hexd(&r.bytes(hl)), s(2000 + req)]);
+    }
+    let is_bind = |m: &String| parse_op(m) == Some(5);
+    // deliver up to and including the k-th Bind that is on the peer's wire
+    let deliver_binds = |w: &mut World, k: usize| {
+        let mut got = 0;
+        while got < k {
+            let Some(m) = w.wire[pe].front().cloned() else { break };
+            if !w.deliver_next(e) { break; }
+            if is_bind(&m) { got += 1; }
+        }
+    };
+    deliver_binds(&mut w, taken);
+    for _ in 0..taken {
+        let out = w.stim(e, &[s("bindnext")]);
+        if let Some(k) = out.strip_prefix("bindreq ").and_then(|x| x.split(' ').next()).and_then(|x| x.parse::<usize>().ok()) {
+            match r.below(3) {
+                0 => { w.answered.insert((e, k)); w.stim(e, &[s("bindreply"), s(k), s(r.below(2))]); }
+                1 => { w.stim(e, &[s("binddrop"), s(k)]); }
+                _ => {}
+            }
+        }
+    }
+    // the queue fills up; with `parked` one more request arrives and the receive loop waits for room
+    deliver_binds(&mut w, cap + usize::from(parked));
+    // the end, with the peer's remaining Bind frames right behind it
+    let take_binds = |w: &mut World, t: &mut Vec<String>, n: usize| {
+        for _ in 0..n {
+            match w.wire[pe].front() {
+                Some(m) if !matches!(m.as_str(), "ping" | "pong" | "close") => { t.push(w.wire[pe].pop_front().unwrap()); }
+                _ => break,
+            }
+        }
+    };
+    match r.below(6) {
+        0 | 1 => {
+            let mut t = vec![s("deliver"), s("closemany")];
+            take_binds(&mut w, &mut t, behind);
+            w.exchanged = true;
+            w.stim(e, &t);
+        }
+        2 => {
+            // an undecodable frame in the middle of the burst
+            w.injected = true;
+            let nb = r.range(1, 5) as usize;
+            let mut b = r.bytes(nb);
+            b[0] = *r.pick(&[0x79u8, 0x7f, 0x17, 0xf0]);
+            let mut t = vec![s("deliver"), s("many"), hexd(&b)];
+            take_binds(&mut w, &mut t, behind);
+            w.exchanged = true;
+            w.stim(e, &t);
+        }
+        3 | 4 => {
+            // the rest arrives (the first of them finds the queue full: the receive loop waits), then the sink fails
+            for _ in 0..r.range(1, behind as u64) { w.deliver_next(e); }
+            w.stim(e, &[s("sinkfail")]);
+        }
+        _ => {
+            // nothing behind the end (control)
+            if r.chance(1, 2) { w.stim(e, &[s("deliver"), s("err")]); } else { w.stim(e, &[s("deliver"), s("eof")]); }
+        }
+    }
+    // (the application of e takes nothing here: `bind-unresolved-at-end` has judged at the end itself; the
+    // completion phase then lets it take what is queued)
+    fair_completion(&mut w, 20);
+    final_checks(&mut w);
+    w
+}
+
+/// C06 (also C07, C10): the abort of a live stream after this endpoint has sent a Reset on its flow id that
+/// closed nothing — the refusal of a `Connect` on the id in use, the answer to a `Push` behind the peer's
+/// `Finish` — with traffic in between; two aborts in a row; an abort on an id for which a Reset was sent
+/// while no stream had it.
+fn refused_connect_then_drop_case(r: &mut Rng, focus: Focus) -> World {
+    let opts = [gen_opts(r, focus), gen_opts(r, focus)];
+    let e = r.below(2) as usize;
+    let pe = 1 - e;
+    let mut w = World::new(opts);
+    let scripts = w9b_scripts(&mut w, r, 12);
+    let scenario = r.below(8);
+    let mut target: Option<u32> = None;
+    if scenario == 7 {
+        // a Reset of e for an id no stream has (a stray Push of the peer), then a stream on that very id
+        let oe = r.below(2) as usize;
+        let n = w.sims[oe].rng.drawn.lock().map(|d| d.len()).unwrap_or(0);
+        if let Some(g) = scripts[oe].get(n).copied() {
+            w.injected = true;
+            let mut f = vec![0x74u8];
+            f.extend_from_slice(&g.to_be_bytes());
+            f.extend(r.bytes(2));
+            w.stim(e, &[s("deliver"), s("bin"), hexd(&f)]);
+            // (the Reset goes to whoever sent the stray frame)
+            w.stim(e, &[s("wiredrop")]);
+            target = Some(g);
+        }
+        let req = w.next_req; w.next_req += 1;
+        w.stim(oe, &[s("open"), s(req), hexd(&r.bytes(2)), s(1000 + req)]);
+        for _ in 0..3 { while w.deliver_next(1 - oe) {} while w.deliver_next(oe) {} }
+        w.stim(1 - oe, &[s("accept")]);
+    }
+    let ns = r.range(1, 3);
+    for _ in 0..ns {
+        let oe = r.below(2) as usize;
+        let req = w.next_req; w.next_req += 1;
+        w.stim(oe, &[s("open"), s(req), hexd(&r.bytes(2)), s(1000 + req)]);
+        for _ in 0..3 { while w.deliver_next(1 - oe) {} while w.deliver_next(oe) {} }
+        w.stim(1 - oe, &[s("accept")]);
+    }
+    let traffic = |w: &mut World, r: &mut Rng, k: usize, to_peer: bool| {
+        let live: Vec<usize> = (0..w.view[k].handles.len()).filter(|&h| w.view[k].handles[h].alive && !w.view[k].handles[h].shutdown).collect();
+        if live.is_empty() { return; }
+        let h = *r.pick(&live);
+        if w.view[k].handles[h].pending_write.is_none() {
+            let d = gen_payload(r, 0x30 + h as u8, w.view[k].handles[h].written.len());
+            let d = if d.is_empty() { vec![0x31] } else { d };
+            w.stim(k, &[s("write"), s(h), hexd(&d)]);
+        }
+        if to_peer {
+            while w.deliver_next(1 - k) {}
+            for hh in 0..w.view[1 - k].handles.len() { if w.view[1 - k].handles[hh].alive { w.stim(1 - k, &[s("read"), s(hh), s(4096)]); } }
+        }
+    };
+    for _ in 0..r.range(0, 3) { let k = r.below(2) as usize; traffic(&mut w, r, k, true); }
+    for _ in 0..2 { while w.deliver_next(0) {} while w.deliver_next(1) {} }
+    let live: Vec<usize> = (0..w.view[e].handles.len()).filter(|&h| w.view[e].handles[h].alive).collect();
+    if live.is_empty() { fair_completion(&mut w, 20); final_checks(&mut w); return w; }
+    let h = live.iter().copied().find(|x| target.is_some() && w.sims[e].flow_id(*x) == target).unwrap_or_else(|| *r.pick(&live));
+    let Some(fid) = w.sims[e].flow_id(h) else { fair_completion(&mut w, 20); final_checks(&mut w); return w; };
+    let connect = |r: &mut Rng, id: u32| {
+        let mut f = vec![0x70u8];
+        f.extend_from_slice(&id.to_be_bytes());
+        f.extend_from_slice(&(r.range(1, 16) as u32).to_be_bytes());
+        f.extend_from_slice(&(r.range(1, 9999) as u16).to_be_bytes());
+        let n = r.range(0, 4) as usize;
+        f.extend(r.bytes(n));
+        hexd(&f)
+    };
+    match scenario {
+        0..=3 => {
+            // the peer (or something speaking for it) proposes the id of the live stream again: refused, the stream
+            // stays; once or twice
+            for _ in 0..r.range(1, 2) {
+                w.injected = true;
+                let f = connect(r, fid);
+                w.stim(e, &[s("deliver"), s("bin"), f]);
+            }
+            // the refusal is taken by whoever sent the Connect, or stays on its way to the peer for now
+            if r.chance(1, 2) { w.stim(e, &[s("wiredrop")]); }
+            // ordinary traffic in between: data of the peer arrives and is read, e writes (not delivered yet)
+            for _ in 0..r.range(0, 3) {
+                match r.below(3) {
+                    0 => traffic(&mut w, r, e, false),
+                    1 => {
+                        traffic(&mut w, r, pe, false);
+                        while w.deliver_next(e) {}
+                        w.stim(e, &[s("read"), s(h), s(4096)]);
+                    }
+                    _ => { w.stim(e, &[s("read"), s(h), s(*r.pick(&[1u64, 64, 4096]))]); }
+                }
+            }
+            // now and then another stream is aborted first (its Reset is the last one the endpoint sent)
+            let others: Vec<usize> = live.iter().copied().filter(|x| *x != h).collect();
+            if !others.is_empty() && r.chance(1, 4) { w.stim(e, &[s("dropstream"), s(*r.pick(&others))]); }
+            w.stim(e, &[s("dropstream"), s(h)]);
+        }
+        4 => {
+            // the peer finishes its direction, then a Push on the flow arrives all the same: answered with a Reset,
+            // the stream stays (its write side is still open); then the application drops it
+            if let Some((_, ph)) = w.peer_handle(e, h) {
+                if w.view[pe].handles[ph].pending_write.is_none() { w.stim(pe, &[s("shutdown"), s(ph)]); }
+                while w.deliver_next(e) {}
+                w.injected = true;
+                let mut f = vec![0x74u8];
+                f.extend_from_slice(&fid.to_be_bytes());
+                let nb = r.range(1, 3) as usize;
+                f.extend(r.bytes(nb));
+                w.stim(e, &[s("deliver"), s("bin"), hexd(&f)]);
+                if r.chance(1, 2) { w.stim(e, &[s("wiredrop")]); }
+                if r.chance(1, 2) { w.stim(e, &[s("read"), s(h), s(4096)]); }
+            }
+            w.stim(e, &[s("dropstream"), s(h)]);
+        }
+        5 | 6 => {
+            // two (or three) streams let go of one after the other, or in one go
+            let mut hs = live.clone();
+            for k in (1..hs.len()).rev() { let j = r.below(k as u64 + 1) as usize; hs.swap(k, j); }
+            if scenario == 5 || hs.len() < 2 {
+                for x in hs { w.stim(e, &[s("dropstream"), s(x)]); }
+            } else {
+                let mut t = vec![s("dropmany")];
+                t.extend(hs.iter().map(s));
+                w.stim(e, &t);
+            }
+        }
+        _ => { w.stim(e, &[s("dropstream"), s(h)]); }
+    }
+    fair_completion(&mut w, 20);
+    final_checks(&mut w);
+    w
+}
+// ==== end of wave 9b =============================================================================
+
 // ---------------------------------------------------------------------------------------------
 // Replaying a recorded line list (used for shrinking, corpus and --replay)
 // ---------------------------------------------------------------------------------------------
 
+/// (wave 9b) Does the header line say that the endpoint's task is created unstarted?
+fn parse_unstarted(line: &str) -> bool {
+    line.split_whitespace().nth(8) == Some("unstarted")
+}
+
 fn parse_new(line: &str) -> Option<SimOpts> {
     let t: Vec<&str> = line.split_whitespace().collect();
-    if t.len() != 8 || t[0] != "new" {
+    // (wave 9b: a ninth token `unstarted`, read by `parse_unstarted`)
+    if !(t.len() == 8 || (t.len() == 9 && t[8] == "unstarted")) || t[0] != "new" {
         return None;
     }
     let n = |i: usize| t[i].parse::<u64>().ok();
@@ -2986,8 +4167,9 @@ fn parse_new(line: &str) -> Option<SimOpts> {
 fn replay_lines(lines: &[String]) -> Option<World> {
     let oa = parse_new(lines.first()?)?;
     let ob = parse_new(lines.get(1)?)?;
-    let mut w = World::new([oa, ob]);
+    let mut w = World::new_with([oa, ob], [parse_unstarted(&lines[0]), parse_unstarted(&lines[1])]);
     w.probe = false;
+    w.vec_mix = false;
     for l in &lines[2..] {
         let t: Vec<String> = l.split_whitespace().map(str::to_string).collect();
         if t.len() < 2 { continue; }
@@ -3018,6 +4200,7 @@ fn replay_lines(lines: &[String]) -> Option<World> {
         w.stim(e, &toks);
     }
     w.probe = true;
+    w.vec_mix = true;
     fair_completion(&mut w, 40);
     final_checks(&mut w);
     if let Some(wd) = WATCH.get() { wd.idle(); }
@@ -3072,13 +4255,36 @@ fn model_diff_tags(drv: &mut Driver, w: &World, tags: &mut Option<&mut std::coll
                 for x in tg.split(" #").filter(|x| !x.is_empty()) { *t.entry(x.to_string()).or_insert(0) += 1; }
             }
         }
-        let m = canon_model(&ans[i + 3]);
-        let im = canon_model(&st.out);
+        let m = canon_zero_read(&st.line, canon_model(&ans[i + 3]));
+        let im = canon_zero_read(&st.line, canon_model(&st.out));
         if m != im {
             return Some((i, m, im));
         }
     }
     None
+}
+
+/// (wave 9a) A read into a buffer without room completes with nothing put, whatever the stream holds: the
+/// model says which of the two it was (`data -`: there is data, none fits; `eof`), the `AsyncRead` caller
+/// cannot tell. Both are written `eof` for the comparison (alone and as a call of a `batch`); what the reads
+/// after it return is compared as always.
+fn canon_zero_read(line: &str, ans: String) -> String {
+    let t: Vec<&str> = line.split(' ').collect();
+    let zero = |c: &[&str]| c.len() == 3 && c[0] == "read" && c[2] == "0";
+    let fix = |r: &str| if r == "data -" { "eof".to_string() } else { r.to_string() };
+    match t.first().copied() {
+        Some("read") if t.len() == 4 && t[3] == "0" => {
+            let (res, evs) = ans.split_once(" | ").unwrap_or((ans.as_str(), ""));
+            format!("{} | {evs}", fix(res))
+        }
+        Some("batch") if t[2..].split(|x| *x == ";").any(zero) => {
+            let (rs, evs) = ans.split_once(" | ").unwrap_or((ans.as_str(), ""));
+            if rs.split(" , ").count() != t[2..].split(|x| *x == ";").count() { return ans; }
+            let rs: Vec<String> = rs.split(" , ").zip(t[2..].split(|x| *x == ";")).map(|(r, c)| if zero(c) { fix(r) } else { r.to_string() }).collect();
+            format!("{} | {evs}", rs.join(" , "))
+        }
+        _ => ans,
+    }
 }
 
 // ---------------------------------------------------------------------------------------------
@@ -3181,7 +4387,7 @@ fn link_projections(w: &World) -> Vec<(String, Vec<LinkReq>)> {
                         reqs.push(LinkReq { req: format!("write {d}"), expect: Some(res.to_string()), step: i });
                     }
                     // the frame-level writer is not an action of the link model: this direction is compared up to here
-                    "wpush" if e == we && t.get(2).and_then(|x| x.parse::<usize>().ok()) == Some(wh) => break,
+                    "wpush" | "writemany" if e == we && t.get(2).and_then(|x| x.parse::<usize>().ok()) == Some(wh) => break,
                     "shutdown" if e == we && t.get(2).and_then(|x| x.parse::<usize>().ok()) == Some(wh) => {
                         writer_shutdown = true;
                         reqs.push(LinkReq { req: "shutdown".into(), expect: None, step: i });
@@ -3200,7 +4406,8 @@ fn link_projections(w: &World) -> Vec<(String, Vec<LinkReq>)> {
                     "dropstream" if e == re && t.get(2).and_then(|x| x.parse::<usize>().ok()) == Some(rh) => break,
                     "read" if e == re && t.get(2).and_then(|x| x.parse::<usize>().ok()) == Some(rh) => {
                         let n = t.get(3).copied().unwrap_or("0");
-                        reqs.push(LinkReq { req: format!("read {n}"), expect: Some(res.to_string()), step: i });
+                        // (a read into no room: its completion says nothing — the link model's state moves on, the answers are not compared)
+                        reqs.push(LinkReq { req: format!("read {n}"), expect: if n == "0" { None } else { Some(res.to_string()) }, step: i });
                     }
                     // (several frames at once: this direction is compared up to the first such delivery that carries one of its frames)
                     "deliver" if t.get(2) == Some(&"many") && t[3..].iter().any(|h| parse_frame(h).is_some_and(|(_, id, _)| id == fid)) => break,
@@ -3260,6 +4467,8 @@ fn attribute(line: &str) -> Vec<&'static str> {
         "open" | "accept" => vec!["C07"],
         "cancelopen" => vec!["C07", "C10"],
         "write" | "writev" | "wpush" => vec!["C02", "C03", "C04", "C05", "C12"],
+        "writemany" => vec!["C03", "C04", "C07"],
+        "wiredrop" => vec!["C10"],
         "read" => vec!["C02", "C03", "C04", "C05"],
         "wstate" => vec!["C04", "C12"],
         "flowcount" => vec!["C06", "C07", "C08", "C10", "C15"],
@@ -3269,6 +4478,8 @@ fn attribute(line: &str) -> Vec<&'static str> {
         "dgsend" | "dgrecv" => vec!["C11"],
         "bindreq" | "bindnext" | "bindreply" | "binddrop" | "holdreq" | "releasereq" => vec!["C15"],
         "dropmux" | "sinkblock" | "sinkunblock" | "sinkgrant" => vec!["C08", "C02"],
+        // (wave 9b)
+        "sinkfail" | "start" => vec!["C08", "C15", "C10"],
         "deliver" => match t.get(2).copied() {
             Some("many") => vec!["C02", "C03", "C04", "C05", "C06", "C07", "C08", "C10", "C11", "C12", "C15"],
             Some("bin") => match t.get(3).and_then(|h| parse_frame(h)).map(|f| f.0) {
@@ -3308,7 +4519,7 @@ fn main() {
         for (i, st) in w.steps.iter().enumerate() {
             println!("{:<60} => {}", st.line, st.out);
             if let Some(m) = &model {
-                if canon_model(&m[i + 3]) != canon_model(&st.out) {
+                if canon_zero_read(&st.line, canon_model(&m[i + 3])) != canon_zero_read(&st.line, canon_model(&st.out)) {
                     println!("{:<60} MODEL: {}", "", m[i + 3]);
                 }
             }
@@ -3575,6 +4786,94 @@ fn main() {
             }
         }
     }
+    // ==== wave 9a ====
+    // records of more than 1 MiB handed over as vectored writes of several slices
+    if matches!(focus, Focus::C04 | Focus::C02) {
+        let n = match (args.tier, focus) { (Tier::Quick, Focus::C04) => 5, (Tier::Quick, _) => 2, (Tier::Thorough, _) => 40 };
+        let base = Rng::new(args.seed ^ fnv(focus.name().as_bytes()) ^ 0x6c76_6563);
+        for k in 0..n {
+            let mut r = base.fork(k);
+            match catch(|| large_vectored_case(&mut r, focus)) {
+                Ok(w) => handle_world(w, "large-vectored", &mut rep, &mut drv),
+                Err(p) => rep.fail(FailKind::Impl, "harness-panic", &format!("panic outside a stimulus: {p}"), json!({})),
+            }
+        }
+    }
+    // reads into a buffer without room among ordinary reads
+    if matches!(focus, Focus::C05 | Focus::C02) {
+        let n = match args.tier { Tier::Quick => 60, Tier::Thorough => 1500 };
+        let base = Rng::new(args.seed ^ fnv(focus.name().as_bytes()) ^ 0x7a72_6561_64);
+        for k in 0..n {
+            let mut r = base.fork(k);
+            match catch(|| zero_room_read_case(&mut r, focus)) {
+                Ok(w) => handle_world(w, "zero-room-read", &mut rep, &mut drv),
+                Err(p) => rep.fail(FailKind::Impl, "harness-panic", &format!("panic outside a stimulus: {p}"), json!({})),
+            }
+        }
+    }
+    // windows advertised by a scripted peer at and beyond the boundaries, both roles (enumerated)
+    if matches!(focus, Focus::C07) {
+        let n = 2 * WINDOW_BOUNDS.len() as u64 * match args.tier { Tier::Quick => 1, Tier::Thorough => 6 };
+        let base = Rng::new(args.seed ^ fnv(focus.name().as_bytes()) ^ 0x7762_6f75_6e64);
+        for k in 0..n {
+            let mut r = base.fork(k);
+            match catch(|| window_boundary_case(&mut r, focus, k)) {
+                Ok(w) => handle_world(w, "window-boundary", &mut rep, &mut drv),
+                Err(p) => rep.fail(FailKind::Impl, "harness-panic", &format!("panic outside a stimulus: {p}"), json!({})),
+            }
+        }
+    }
+    // datagram payloads at the top of the 64 KiB range and a little beyond (lengths enumerated)
+    if matches!(focus, Focus::C11) {
+        let n = match args.tier { Tier::Quick => 32, Tier::Thorough => 800 };
+        let base = Rng::new(args.seed ^ fnv(focus.name().as_bytes()) ^ 0x6467_746f_70);
+        for k in 0..n {
+            let mut r = base.fork(k);
+            match catch(|| dgram_boundary_case(&mut r, focus, k)) {
+                Ok(w) => handle_world(w, "dgram-boundary", &mut rep, &mut drv),
+                Err(p) => rep.fail(FailKind::Impl, "harness-panic", &format!("panic outside a stimulus: {p}"), json!({})),
+            }
+        }
+    }
+    // ==== end of wave 9a ====
+    // ==== wave 9b ====
+    // calls made before the connection task's first poll, the transport dead (or closed, or not ready) from the start
+    if matches!(focus, Focus::C08 | Focus::C15 | Focus::C07) {
+        let n = match (args.tier, focus) { (Tier::Quick, Focus::C08) => 80, (Tier::Quick, _) => 30, (Tier::Thorough, Focus::C08) => 2000, (Tier::Thorough, _) => 600 };
+        let base = Rng::new(args.seed ^ fnv(focus.name().as_bytes()) ^ 0x646f_6172);
+        for k in 0..n {
+            let mut r = base.fork(k);
+            match catch(|| dead_on_arrival_case(&mut r, focus)) {
+                Ok(w) => handle_world(w, "dead-on-arrival", &mut rep, &mut drv),
+                Err(p) => rep.fail(FailKind::Impl, "harness-panic", &format!("panic outside a stimulus: {p}"), json!({})),
+            }
+        }
+    }
+    // the bind accept queue full at the end of the connection, more Bind frames right behind the end, own requests pending
+    if matches!(focus, Focus::C15 | Focus::C08 | Focus::C10) {
+        let n = match (args.tier, focus) { (Tier::Quick, Focus::C15) => 80, (Tier::Quick, _) => 30, (Tier::Thorough, Focus::C15) => 2000, (Tier::Thorough, _) => 600 };
+        let base = Rng::new(args.seed ^ fnv(focus.name().as_bytes()) ^ 0x6262_6c6f_67);
+        for k in 0..n {
+            let mut r = base.fork(k);
+            match catch(|| bind_backlog_at_end_case(&mut r, focus)) {
+                Ok(w) => handle_world(w, "bind-backlog-at-end", &mut rep, &mut drv),
+                Err(p) => rep.fail(FailKind::Impl, "harness-panic", &format!("panic outside a stimulus: {p}"), json!({})),
+            }
+        }
+    }
+    // the abort of a live stream after a Reset on its id that closed nothing (refused Connect, Push behind a Finish); aborts in a row
+    if matches!(focus, Focus::C06 | Focus::C07 | Focus::C10) {
+        let n = match (args.tier, focus) { (Tier::Quick, Focus::C06) => 80, (Tier::Quick, _) => 30, (Tier::Thorough, Focus::C06) => 2000, (Tier::Thorough, _) => 600 };
+        let base = Rng::new(args.seed ^ fnv(focus.name().as_bytes()) ^ 0x7265_6675_7365);
+        for k in 0..n {
+            let mut r = base.fork(k);
+            match catch(|| refused_connect_then_drop_case(&mut r, focus)) {
+                Ok(w) => handle_world(w, "refused-connect-then-drop", &mut rep, &mut drv),
+                Err(p) => rep.fail(FailKind::Impl, "harness-panic", &format!("panic outside a stimulus: {p}"), json!({})),
+            }
+        }
+    }
+    // ==== end of wave 9b ====
     for _ in 0..cases {
         let tag = rng.next();
         let mut r = rng.fork(tag);
